@@ -37,7 +37,7 @@ def norm_tok(kind, text, fmt=False):
     if kind == "DOT":
         return text.lower()
     if kind == "BOZ":
-        return text[0].lower() + text[1:]
+        return text.lower()        # R412-R414: the letters of a hex constant are digits, not text (printed in upper case)
     return text
 
 
